@@ -26,6 +26,16 @@ def default_opts(kind):
     return {"emit_default_doc": False, "word_wrap": True, "wrap_description": False}
 
 
+def wrap_opts(kind, flip, word_wrap):
+    """Options of the wrapping checks: the defaults, with the default-text switch flipped when `flip` is set."""
+    opts = dict(default_opts(kind), word_wrap=word_wrap)
+    if kind == "argparse":
+        opts["wrap_description"] = word_wrap
+    if flip:
+        opts["emit_default_doc"] = not opts["emit_default_doc"]
+    return opts
+
+
 def opts_strategy(kind):
     b = st.booleans()
     if kind in DOC_KINDS:
